@@ -26,6 +26,99 @@ func propC10(c *Ctx) {
 	c.ruleNextDirectiveRecognised("C10-NEXT-DIRECTIVE") // a PASTE after an implicit Description must be seen
 	// the copies a PASTE makes share the coordinates of the macro body: "same offset" does not mean "same directive"
 	c.rulePositionNeedsFile("C10-POSITION-NEEDS-FILE")
+	// the copies share the maps and slices of the original: a method that takes the directive by value must not write
+	// through them
+	c.ruleValueReceiverWrites("C10-VALUE-RECEIVER-PURE")
+	// what a PASTE brings is declared like what is written in place: a second declaration of a name is an error
+	// whether or not it is "the same" directive
+	c.ruleNoSkipOnExists()
+}
+
+// ruleValueReceiverWrites: a method with a value receiver works on a copy of the struct, but the copy shares every map,
+// slice and pointer of the original - and so do the copies CopyWoParentAndChildren makes for a PASTE. A store through
+// such a field inside a value-receiver method (a "cache" kept with the parameters) is invisible at the call site and
+// lands in all copies at once.
+func (c *Ctx) ruleValueReceiverWrites(rule string) {
+	r := c.R
+	r.Rule(rule, "no method with a value receiver (func (d T) ...) of a library struct stores into a map or slice element, or through a pointer, reached from the receiver (d.m[k] = v, d.s[i] = v, *d.p = v, delete(d.m, k)): getters are read-only for every copy of the value", 1)
+	n, bad := 0, 0
+	for _, f := range c.libFns() {
+		if f.Decl.Recv == nil || len(f.Decl.Recv.List) != 1 || len(f.Decl.Recv.List[0].Names) != 1 {
+			continue
+		}
+		if _, isPtr := f.Decl.Recv.List[0].Type.(*ast.StarExpr); isPtr {
+			continue
+		}
+		pk := f.Pkg
+		if strings.HasSuffix(pk.Fset.Position(f.Decl.Pos()).Filename, "_gen.go") {
+			continue
+		}
+		recv := pk.TypesInfo.Defs[f.Decl.Recv.List[0].Names[0]]
+		if recv == nil {
+			continue
+		}
+		if _, isStruct := recv.Type().Underlying().(*types.Struct); !isStruct {
+			continue
+		}
+		n++
+		rooted := func(e ast.Expr) bool {
+			for {
+				switch x := ast.Unparen(e).(type) {
+				case *ast.SelectorExpr:
+					e = x.X
+				case *ast.IndexExpr:
+					e = x.X
+				case *ast.StarExpr:
+					e = x.X
+				case *ast.Ident:
+					return pk.TypesInfo.Uses[x] == recv
+				default:
+					return false
+				}
+			}
+		}
+		throughRef := func(e ast.Expr) bool {
+			// the store passes an index or a dereference (a plain d.f = v changes the copy only)
+			for {
+				switch x := ast.Unparen(e).(type) {
+				case *ast.SelectorExpr:
+					if _, isPtr := pk.TypesInfo.TypeOf(x.X).Underlying().(*types.Pointer); isPtr {
+						return true
+					}
+					e = x.X
+				case *ast.IndexExpr:
+					if _, isArr := pk.TypesInfo.TypeOf(x.X).Underlying().(*types.Array); !isArr {
+						return true
+					}
+					e = x.X
+				case *ast.StarExpr:
+					return true
+				default:
+					return false
+				}
+			}
+		}
+		ast.Inspect(f.Decl.Body, func(nd ast.Node) bool {
+			switch x := nd.(type) {
+			case *ast.AssignStmt:
+				for _, l := range x.Lhs {
+					if rooted(l) && throughRef(l) {
+						bad++
+						r.Bad(rule, f.Name()+" | "+exprString(l), "a method with a value receiver stores through a map, slice or pointer of the receiver: the write lands in the original and in every copy that shares it (the copies a PASTE makes share the parameter maps), although the method looks like a getter to its callers", c.pos(x.Pos()))
+					}
+				}
+			case *ast.CallExpr:
+				if id, ok := x.Fun.(*ast.Ident); ok && (id.Name == "delete" || id.Name == "clear") && len(x.Args) > 0 && rooted(x.Args[0]) {
+					bad++
+					r.Bad(rule, f.Name()+" | "+exprString(x), "a method with a value receiver deletes from a map of the receiver: every copy that shares the map loses the entry", c.pos(x.Pos()))
+				}
+			}
+			return true
+		})
+	}
+	if bad == 0 {
+		r.Ok(rule, "library", fmt.Sprintf("%d value-receiver methods of structs, none stores through the receiver", n), "")
+	}
 }
 
 // ruleC10RulesWithBody: the ENUM rules declared inside a macro belong to its body. Wherever the body of a macro taken
